@@ -6,7 +6,9 @@
 
   The code modelled is the tree with `fixes/D11_total_sort_key.patch` (the set of hits is sorted
   by the total key `(query_start, query_end, hit_id, evalue, bitscore)`) and
-  `fixes/D22_merge_spans.patch` (`merge` takes `min` start / `max` end) applied.
+  `fixes/D22_merge_spans.patch` (`merge` takes `min` start / `max` end) and
+  `fixes/D27_keep_separate_domains.patch` (`_merge_domain_list` keeps a run of fragments when the
+  next fragment of the profile is too far away, instead of forgetting it) applied.
 
   Representation (exact, order-isomorphic; see `harness/props/c13.py`):
     * `prof`  — rank of the profile name among the sorted profile names of the case (Python compares
@@ -138,18 +140,19 @@ def firstOcc : List Int → List Int
   | p :: ps => p :: (firstOcc ps).filter (· != p)
 
 /-- the inner loop over `category[1:]`; `span3 = 3 · hmm_lengths[category[0].hit_id]`
-    (`other.query_end - merged.query_start < 1.5 * length`, doubled) -/
-def mergeCat (span3 : Int) : Hit → List Hit → Hit
-  | merged, [] => merged
+    (`other.query_end - merged.query_start < 1.5 * length`, doubled); the result is what the
+    category appends to `remaining`: every closed run, then the last `merged` -/
+def mergeCat (span3 : Int) : Hit → List Hit → List Hit
+  | merged, [] => [merged]
   | merged, other :: rest =>
     if 2 * (other.qe - merged.qs) < span3 then mergeCat span3 (merged.merge other) rest
-    else mergeCat span3 other rest
+    else merged :: mergeCat span3 other rest
 
 def mergeDomainList (env : Env) (domains : List Hit) : List Hit :=
-  let remaining := (firstOcc (domains.map (·.prof))).filterMap fun p =>
+  let remaining := (firstOcc (domains.map (·.prof))).flatMap fun p =>
     match domains.filter (fun d => d.prof == p) with
-    | [] => none
-    | h :: t => some (mergeCat (3 * env.len h.prof) h t)
+    | [] => []
+    | h :: t => mergeCat (3 * env.len h.prof) h t
   sortBy Hit.leStart remaining
 
 /-! ### `_merge_immediate_neigbours` -/
@@ -172,14 +175,16 @@ def mergeImmediate (env : Env) (l : List Hit) : List Hit := (mergeImmediate? env
 
 /-! ### `refine_hmmscan_results`, one gene -/
 
+/-- the list handed to `remove_incomplete`: sorted set, then (neighbour mode) overlap removal and
+    neighbour merge, or (default) per-profile merge and overlap removal -/
+def beforeIncomplete (env : Env) (neighbour : Bool) (results : List Hit) : List Hit :=
+  if neighbour then mergeImmediate env (removeOverlapping env (sortHits results))
+  else removeOverlapping env (mergeDomainList env (sortHits results))
+
 /-- the body of the `for cds, results in results_by_id.items()` loop; `results` is the (non-empty)
     set of the gene's hits in an arbitrary enumeration; `[]` = the gene is left out of the result -/
 def refine (env : Env) (neighbour : Bool) (results : List Hit) : List Hit :=
-  let refined := sortHits results
-  let refined :=
-    if neighbour then mergeImmediate env (removeOverlapping env refined)
-    else removeOverlapping env (mergeDomainList env refined)
-  removeIncomplete env refined
+  removeIncomplete env (beforeIncomplete env neighbour results)
 
 /-! ### `filter_nonterminal_docking_domains`, one gene -/
 
